@@ -113,4 +113,81 @@ theorem model_round_frozen (s : St) (k j : Nat) :
 example : spin_step 5 7 false = some (some 7) ∧ spin_step 5 3 true = some none ∧ spin_step 5 3 false = none ∧
     get_min_cursor_sequence [9, 4, 6] = 4 ∧ get_min_cursor_sequence [] = 0 := by decide
 
+/-! ## the blocking strategy -/
+
+/-- **one pass of the generated blocking loop, in closed form**: the alert is read first, under the lock; the decision and the
+operations performed, in program order -/
+theorem block_step_spec (sq av : Nat) (al : Bool) :
+    block_step sq av al =
+      if al then (some none, [.lock, .alert, .unlock])
+      else if av ≥ sq then (some (some av), [.lock, .alert, .loads, .unlock])
+      else (none, [.lock, .alert, .loads, .wait, .unlock]) := by
+  unfold block_step
+  by_cases h : av ≥ sq <;> cases al <;> simp [h] <;> omega
+
+theorem block_signal_spec : block_signal = [.lock, .notify, .unlock] := by decide
+
+/-- the operation a consumer program counter of `Model/Ring.lean` stands for (`none`: an internal step; `bRelock` is the second half
+of the condvar wait — the re-acquisition of the mutex) -/
+def pcOp : CPc → Option Op
+  | .bLock => some .lock
+  | .bAlert => some .alert
+  | .waitLoad => some .loads
+  | .bWait => some .wait
+  | .bUnlockGo | .bUnlockRetry | .bUnlockExit => some .unlock
+  | .sLock => some .lock
+  | .sNotify => some .notify
+  | .sUnlock => some .unlock
+  | _ => none
+
+/-- consecutive duplicates removed (a round of loads is several `waitLoad` steps) -/
+def squash : List Op → List Op
+  | a :: b :: r => if a = b then squash (b :: r) else a :: squash (b :: r)
+  | l => l
+
+def opsOf (pcs : List CPc) : List Op := squash (pcs.filterMap pcOp)
+
+/-- **the model's blocking consumer takes the generated decisions, in the generated order**: under the blocking strategy, from
+`bLock` (mutex free) the model goes to `bAlert`; there `is_done` decides between the exit path and a round of loads; after the
+loads `checkAvail` decides between `bUnlockGo → handle` and `bWait → bRelock → bUnlockRetry → bLock` -/
+theorem model_block_edges (s : St) (hb : s.blocking = true) (k j : Nat) (c : Cons) :
+    (c.pc = .bLock → s.mtx = none → (stepCons s k j c).pc = .bAlert) ∧
+    (c.pc = .bAlert → (stepCons s k j c).pc = if s.isDone then .bUnlockExit else .waitLoad) ∧
+    (c.pc = .waitLoad → (stepCons s k j c).pc = if c.idx < ndeps s k then .waitLoad else .checkAvail) ∧
+    (c.pc = .checkAvail → (stepCons s k j c).pc = if c.avail ≥ c.next then .bUnlockGo else .bWait) ∧
+    (c.pc = .bUnlockGo → (stepCons s k j c).pc = .handle) ∧
+    (c.pc = .bWait → (stepCons s k j c).pc = .bRelock) ∧
+    (c.pc = .bRelock → s.woken k j = true → s.mtx = none → (stepCons s k j c).pc = .bUnlockRetry) ∧
+    (c.pc = .bUnlockRetry → (stepCons s k j c).pc = .bLock) ∧
+    (c.pc = .bUnlockExit → (stepCons s k j c).pc = .done) := by
+  refine ⟨?_, ?_, ?_, ?_, ?_, ?_, ?_, ?_, ?_⟩ <;> intro h <;> (try intro h2) <;> (try intro h3) <;>
+    simp [stepCons, h, hb, *] <;> split <;> simp_all
+
+/-- the three ways through one pass of the model, as program-counter paths -/
+def pathAlerted : List CPc := [.bLock, .bAlert, .bUnlockExit]
+def pathEnough : List CPc := [.bLock, .bAlert, .waitLoad, .waitLoad, .checkAvail, .bUnlockGo]
+def pathWait : List CPc := [.bLock, .bAlert, .waitLoad, .waitLoad, .checkAvail, .bWait, .bRelock, .bUnlockRetry]
+def pathSignal : List CPc := [.sLock, .sNotify, .sUnlock]
+
+/-- **the operations along the model's paths are the generated operation lists** (whatever the wanted sequence and the observed
+minimum): alerted, enough, wait again; and `signal` -/
+theorem model_paths_spell_generated (sq av : Nat) :
+    opsOf pathAlerted = (block_step sq av true).2 ∧
+    (av ≥ sq → opsOf pathEnough = (block_step sq av false).2) ∧
+    (¬ av ≥ sq → opsOf pathWait = (block_step sq av false).2) ∧
+    opsOf pathSignal = block_signal := by
+  have ha : opsOf pathAlerted = [.lock, .alert, .unlock] := by decide
+  have he : opsOf pathEnough = [.lock, .alert, .loads, .unlock] := by decide
+  have hw : opsOf pathWait = [.lock, .alert, .loads, .wait, .unlock] := by decide
+  have hs : opsOf pathSignal = [.lock, .notify, .unlock] := by decide
+  refine ⟨?_, ?_, ?_, ?_⟩
+  · rw [block_step_spec, ha]; rfl
+  · intro h; rw [block_step_spec, he]; simp only [Bool.false_eq_true, if_false, h, if_true]
+  · intro h; rw [block_step_spec, hw]; simp only [Bool.false_eq_true, if_false, h]
+  · rw [block_signal_spec, hs]
+
+example : block_step 5 7 false = (some (some 7), [.lock, .alert, .loads, .unlock]) ∧
+    block_step 5 3 false = (none, [.lock, .alert, .loads, .wait, .unlock]) ∧ (block_step 5 9 true).1 = some none := by decide
+
+
 end C13WaitGen
